@@ -55,6 +55,10 @@ impl SWCurveConfig for Config {
 
     #[inline]
     fn mul_projective(p: &G1Projective, scalar: &[u64]) -> G1Projective {
+        if scalar.len() > Fr::MODULUS.0.len() {
+            // GLV needs the scalar as a field element; raw integers wider than `Fr` take the generic path.
+            return ark_ec::scalar_mul::sw_double_and_add_projective(p, scalar);
+        }
         let s = Self::ScalarField::from_sign_and_limbs(true, scalar);
         GLVConfig::glv_mul_projective(*p, s)
     }
